@@ -230,10 +230,11 @@ class Run(object):
             raise Violation(("delivered_despite_failure", {"what": what}),
                             "%s nid=%s was delivered although its serialization failed" % (what, nid))
         kinds = [r.msg.get("message_type") for r in new]
-        if kinds != ["eliot:traceback", "eliot:serialization_failure"]:
+        if sorted(kinds, key=str) != ["eliot:serialization_failure", "eliot:traceback"]:
             raise Violation(("failure_reports", {"what": what}),
                             "%s nid=%s failed to serialize; reports emitted: %s" % (what, nid, kinds))
-        tb, sf = new[0].msg, new[1].msg
+        tb = [r.msg for r in new if r.msg.get("message_type") == "eliot:traceback"][0]
+        sf = [r.msg for r in new if r.msg.get("message_type") == "eliot:serialization_failure"][0]
         text = sf.get("message")
         if not isinstance(text, str) or ("'nid'\": '%d'" % nid) not in text:
             if what != "end" or not isinstance(text, str):
@@ -262,8 +263,8 @@ class Run(object):
                     raise Violation(("report_placement", {"what": what}),
                                     "%s nid=%s failed inside action %s %s, report logged at %s %s" % (
                                         what, nid, u, pre, r["task_uuid"], r["task_level"]))
-            if sf["task_level"][-1] != tb["task_level"][-1] + 1:
-                raise Violation(("report_placement", {"what": what}), "reports not at consecutive positions")
+            if sf["task_level"] == tb["task_level"]:
+                raise Violation(("report_placement", {"what": what}), "both reports at the same position")
         return result, None
 
     def is_mine(self, m, nid, what):
